@@ -242,7 +242,10 @@ cs_c cs_param_value(const cs_vna *v, const cs_param *p, double f)
 	}
     }
     double x = cs_xf(v, f);
-    return (p->c0 + p->c1 * x) / (1.0 + p->c2 * x);
+    cs_c val = (p->c0 + p->c1 * x) / (1.0 + p->c2 * x);
+    if (p->warp != 0.0)
+	val *= cexp(I * p->warp * x);
+    return val;
 }
 
 void cs_std_S(const cs_scenario *sc, const cs_std *st, int findex, cs_c *S)
